@@ -40,7 +40,14 @@ TrListener == /\ IsEvent("listener")
               /\ delivering.what = <<E.kind, E.s, E.n>>
               /\ DeliverTo(E.l)
 TrEnd == IsEvent("end") /\ Idle /\ wire = << >> /\ UNCHANGED vars
-Silent == CtrlRead /\ UNCHANGED <<tid, l>>
+\* When the controller itself abandons a session (request time-out) the accessory notices - and the harness logs
+\* `drop` - only after the controller has already failed the operation: the loss may be taken silently if a `drop`
+\* of the current session is logged before the next session comes up.
+DropAhead == \E k \in l..Len(Ev) : /\ Ev[k].ev = "drop" /\ Ev[k].s = sess
+                                    /\ \A m \in l..(k - 1) : Ev[m].ev # "session"
+Silent == /\ \/ CtrlRead
+             \/ (sess # 0 /\ DropAhead /\ Drop)
+          /\ UNCHANGED <<tid, l>>
 
 TNext == TrAdd \/ TrRemove \/ TrSub \/ TrUnsub \/ TrOpRet \/ TrSession \/ TrDrop \/ TrAccReg \/ TrAccReply \/ TrAccEv \/ TrAccBad
          \/ TrListener \/ TrEnd \/ Silent
